@@ -69,12 +69,20 @@
   * `C08_xt_foreign`, `C08_xt_multiple`, `C08_xt_single_foreign`
                                 topics outside btih (urn:btmh: …), several topics of any kinds, a
                                 v2-only link: MagnetError — never an index error.
+  Round 5 (lazily validated attributes of the parsed URI, Model/UrlAttrs.lean):
+  * `C08_attr_reads_safe`       from_string reads only `scheme`/`query` outside its try; is_url reads
+                                the lazily validated `port` inside `try … except Exception`.
+  * `C08_magnet_no_extra_reads`, `C08_magnet_reads_documented`, `C08_magnet_port_read_raises`
+                                from_string with additional attribute reads after the scheme test:
+                                none, or only non-raising ones ⇒ documented; a `port` read there ⇒
+                                bare ValueError on every magnet URI with an invalid port.
   Partial: CPython's actual time and memory are measured by the harness, not proved.
 -/
 import Torf.Lemmas.Untrusted
 import Torf.Lemmas.QueryString
 import Torf.Lemmas.PyStrip
 import Torf.Lemmas.PyInt
+import Torf.Model.UrlAttrs
 import Torf.Lemmas.ValidateSingle
 import Torf.Properties.C07
 namespace Torf.C08
@@ -775,6 +783,74 @@ theorem C08_xt_single_foreign (o : MagnetOracle) (q : List (String × List Strin
   rw [h]
   dsimp only
   rw [if_neg (by simp), C08_xt_foreign xt h1 h2]
+
+/-! ### round 5: lazily validated attributes of the parsed URI -/
+
+/-- **Where the unchanged code reads what**: `from_string` reads only the eager fields `scheme` and
+    `query` outside its `try`; `is_url` reads the lazily validated `port` inside `try … except
+    Exception`.  No read that can raise sits outside a `try`. -/
+theorem C08_attr_reads_safe : readsSafe fromStringReads = true ∧ readsSafe isUrlReads = true := by decide
+
+/-- no additional read ⇒ `fromStringA` is `from_string` -/
+theorem C08_magnet_no_extra_reads (o : MagnetOracle) (pct : String → String) (raises : UrlAttr → Bool)
+    (uri : String) : fromStringA o pct raises [] uri = fromStringS o pct {} uri := by
+  unfold fromStringA fromStringS fromStringQ
+  cases o.urlparse (String.ofList (pyStrip uri.toList)) with
+  | none => rfl
+  | some sq =>
+    obtain ⟨scheme, query⟩ := sq
+    dsimp only [firstRaise]
+    split <;> rfl
+
+theorem firstRaise_none (raises : UrlAttr → Bool) : ∀ (l : List UrlAttr),
+    (∀ a ∈ l, raises a = false) → firstRaise raises l = none := by
+  intro l
+  induction l with
+  | nil => intro _; rfl
+  | cons a rest ih =>
+    intro h
+    unfold firstRaise
+    rw [h a (List.mem_cons_self ..)]
+    exact ih (fun b hb => h b (List.mem_cons_of_mem _ hb))
+
+/-- Additional reads of attributes that do not raise for this URI — in particular of every eager
+    field, `hostname`, `username`, `password` when only `port` is validated lazily — leave the
+    documented behaviour: a magnet, MagnetError or URLError. -/
+theorem C08_magnet_reads_documented (o : MagnetOracle) (pct : String → String) (raises : UrlAttr → Bool)
+    (extra : List UrlAttr) (uri : String) (h : ∀ a ∈ extra, raises a = false) :
+    (∃ m, fromStringA o pct raises extra uri = .ok m) ∨ fromStringA o pct raises extra uri = .error .magnet ∨
+    fromStringA o pct raises extra uri = .error .url := by
+  unfold fromStringA
+  rw [firstRaise_none raises extra h]
+  cases o.urlparse (String.ofList (pyStrip uri.toList)) with
+  | none => right; left; rfl
+  | some sq =>
+    obtain ⟨scheme, query⟩ := sq
+    dsimp only
+    split
+    · right; left; rfl
+    · exact C08_magnet_documented_strip o pct uri
+
+/-- **A read of `port` after the scheme test and outside the `try` breaks the property**: for every
+    URI with scheme `magnet` whose port is invalid (`magnet://:99999/?xt=…`) a bare ValueError
+    escapes, whatever else is read before it without raising. -/
+theorem C08_magnet_port_read_raises (o : MagnetOracle) (pct : String → String) (raises : UrlAttr → Bool)
+    (before after : List UrlAttr) (uri query : String)
+    (hu : o.urlparse (String.ofList (pyStrip uri.toList)) = some ("magnet", query))
+    (hb : ∀ a ∈ before, raises a = false) (hp : raises .port = true) :
+    fromStringA o pct raises (before ++ .port :: after) uri = .error (.internal "ValueError") := by
+  unfold fromStringA
+  rw [hu]
+  dsimp only
+  rw [if_neg (by decide)]
+  have : firstRaise raises (before ++ .port :: after) = some .port := by
+    induction before with
+    | nil => simp [firstRaise, hp]
+    | cons a rest ih =>
+      simp only [List.cons_append, firstRaise]
+      rw [hb a (List.mem_cons_self ..)]
+      exact ih (fun b hb' => hb b (List.mem_cons_of_mem _ hb'))
+  rw [this]
 
 /-- The decoder is linear: one unit per input byte, per iteration of the outer loop and per
     iteration of the inner pop loop add up to at most 3·|bs| + 2. -/
